@@ -49,8 +49,34 @@ pub struct ArrayMachine {
   pub done_add: u64,
 }
 
+/// General array-pattern family: an ordered list of arms over `:Scan(xs<[u64]>, acc<u64>)`, each with
+/// its own array pattern (empty, exact length, `| rest` binding, `…` spread with prefix and suffix
+/// elements, repeated names = equality, literal elements), optional guards and a target that
+/// builds the next vector from the bound names. The first arm whose pattern matches and one of
+/// whose guards holds is taken.
+#[derive(Clone, Debug, Serialize, Deserialize, PartialEq)]
+pub enum AItem { Name(usize), Lit(u64) }
+#[derive(Clone, Debug, Serialize, Deserialize, PartialEq)]
+pub enum APat { Empty, Exact(Vec<AItem>), Rest(Vec<AItem>), Spread(Vec<AItem>, Vec<AItem>, bool) }
+#[derive(Clone, Debug, Serialize, Deserialize, PartialEq)]
+pub enum AVec { Rest, Cons(usize), Of(Vec<usize>) }
+#[derive(Clone, Debug, Serialize, Deserialize, PartialEq)]
+pub enum AAcc { Acc, AddName(usize), AddConst(u64), NamePlusName(usize, usize), SubName(usize) }
+#[derive(Clone, Debug, Serialize, Deserialize, PartialEq)]
+pub enum ATarget { Scan(AVec, AAcc), Done(AAcc) }
+#[derive(Clone, Debug, Serialize, Deserialize, PartialEq)]
+pub enum AGuard { Wild, NameCmpName(usize, Cmp, usize), NameCmpConst(usize, Cmp, u64), AccCmpConst(Cmp, u64) }
+#[derive(Clone, Debug, Serialize, Deserialize, PartialEq)]
+pub struct AArm { pub pat: APat, pub branches: Vec<(AGuard, ATarget)> }
+#[derive(Clone, Debug, Serialize, Deserialize, PartialEq)]
+pub struct Array2 { pub start_acc: u64, pub arms: Vec<AArm> }
+
+const ENAMES: [&str; 5] = ["a", "b", "c", "d", "e"];
+
 #[derive(Clone, Debug, Serialize, Deserialize)]
 pub struct Machine {
+  #[serde(default)]
+  pub array2: Option<Array2>,
   #[serde(default)]
   pub array: Option<ArrayMachine>,
   pub arity: usize,
@@ -123,8 +149,175 @@ fn render_array(a: &ArrayMachine) -> String {
   s
 }
 
+fn aitem_text(i: &AItem) -> String { match i { AItem::Name(n) => ENAMES[*n].to_string(), AItem::Lit(v) => format!("{}u64", v) } }
+fn apat_text(p: &APat) -> String {
+  let items = |v: &Vec<AItem>| v.iter().map(aitem_text).collect::<Vec<_>>().join(", ");
+  match p {
+    APat::Empty => "[]".to_string(),
+    APat::Exact(v) => format!("[{}]", items(v)),
+    APat::Rest(v) => format!("[{} | rest]", items(v)),
+    APat::Spread(pre, suf, uni) => {
+      let dots = if *uni { "…" } else { "..." };
+      let mut parts = vec![];
+      if !pre.is_empty() { parts.push(items(pre)); }
+      parts.push(dots.to_string());
+      if !suf.is_empty() { parts.push(items(suf)); }
+      format!("[{}]", parts.join(" "))
+    }
+  }
+}
+fn avec_text(v: &AVec) -> String {
+  match v { AVec::Rest => "rest".to_string(), AVec::Cons(n) => format!("[{} rest]", ENAMES[*n]), AVec::Of(ns) => format!("[{}]", ns.iter().map(|n| ENAMES[*n]).collect::<Vec<_>>().join(" ")) }
+}
+fn aacc_text(a: &AAcc) -> String {
+  match a { AAcc::Acc => "acc".to_string(), AAcc::AddName(n) => format!("acc + {}", ENAMES[*n]), AAcc::AddConst(k) => format!("acc + {}u64", k), AAcc::NamePlusName(i, j) => format!("{} + {}", ENAMES[*i], ENAMES[*j]), AAcc::SubName(n) => format!("acc - {}", ENAMES[*n]) }
+}
+fn atarget_text(t: &ATarget) -> String { match t { ATarget::Scan(v, a) => format!(":Scan({}, {})", avec_text(v), aacc_text(a)), ATarget::Done(a) => format!(":Done({})", aacc_text(a)) } }
+fn aguard_text(g: &AGuard) -> String {
+  match g { AGuard::Wild => "*".to_string(), AGuard::NameCmpName(i, c, j) => format!("{} {} {}", ENAMES[*i], cmp_text(c), ENAMES[*j]), AGuard::NameCmpConst(i, c, k) => format!("{} {} {}u64", ENAMES[*i], cmp_text(c), k), AGuard::AccCmpConst(c, k) => format!("acc {} {}u64", cmp_text(c), k) }
+}
+fn render_array2(a: &Array2) -> String {
+  let mut s = String::from("#M(xs<[u64]>) => <u64>\n  ├ :Scan(xs<[u64]>, acc<u64>)\n  └ :Done(out<u64>).\n\n");
+  s.push_str(&format!("#M(xs<[u64]>) -> :Scan(xs, {}u64)\n", a.start_acc));
+  for arm in &a.arms {
+    if arm.branches.len() == 1 && arm.branches[0].0 == AGuard::Wild {
+      s.push_str(&format!("  :Scan({}, acc) -> {}\n", apat_text(&arm.pat), atarget_text(&arm.branches[0].1)));
+    } else {
+      s.push_str(&format!("  :Scan({}, acc)\n", apat_text(&arm.pat)));
+      for (j, (g, t)) in arm.branches.iter().enumerate() {
+        let pre = if j + 1 == arm.branches.len() { "└" } else { "├" };
+        s.push_str(&format!("    {} {} -> {}\n", pre, aguard_text(g), atarget_text(t)));
+      }
+    }
+  }
+  s.push_str("  :Done(out) => out.\n");
+  s
+}
+
+/// Matching of one array pattern against a vector: bindings by name index, and the rest slice.
+fn amatch(p: &APat, xs: &[u64]) -> Option<(BTreeMap<usize, u64>, Vec<u64>)> {
+  let mut env: BTreeMap<usize, u64> = BTreeMap::new();
+  let mut item = |it: &AItem, v: u64, env: &mut BTreeMap<usize, u64>| -> bool {
+    match it { AItem::Lit(k) => *k == v, AItem::Name(n) => match env.get(n) { Some(old) => *old == v, None => { env.insert(*n, v); true } } }
+  };
+  match p {
+    APat::Empty => if xs.is_empty() { Some((env, vec![])) } else { None },
+    APat::Exact(items) => {
+      if xs.len() != items.len() { return None; }
+      for (it, v) in items.iter().zip(xs.iter()) { if !item(it, *v, &mut env) { return None; } }
+      Some((env, vec![]))
+    }
+    APat::Rest(items) => {
+      if xs.len() < items.len() { return None; }
+      for (it, v) in items.iter().zip(xs.iter()) { if !item(it, *v, &mut env) { return None; } }
+      Some((env, xs[items.len()..].to_vec()))
+    }
+    APat::Spread(pre, suf, _) => {
+      if xs.len() < pre.len() + suf.len() { return None; }
+      for (it, v) in pre.iter().zip(xs.iter()) { if !item(it, *v, &mut env) { return None; } }
+      let st = xs.len() - suf.len();
+      for (it, v) in suf.iter().zip(xs[st..].iter()) { if !item(it, *v, &mut env) { return None; } }
+      Some((env, vec![]))
+    }
+  }
+}
+
+fn reference_array2(a: &Array2, input: &[u64]) -> RefRun {
+  let c = |c: &Cmp, x: u64, y: u64| match c { Cmp::Gt => x > y, Cmp::Lt => x < y, Cmp::Eq => x == y, Cmp::Ge => x >= y, Cmp::Le => x <= y, Cmp::Ne => x != y };
+  let mut xs: Vec<u64> = input.to_vec();
+  let mut acc = a.start_acc;
+  let mut visited = vec![]; let mut taken = vec![];
+  let mut seen: BTreeSet<(Vec<u64>, u64)> = BTreeSet::new();
+  for _ in 0..5000 {
+    visited.push((0usize, vec![acc]));
+    if !seen.insert((xs.clone(), acc)) { visited.pop(); return RefRun { visited, taken, end: RefEnd::Loops }; }
+    let mut chosen: Option<(usize, &ATarget, BTreeMap<usize, u64>, Vec<u64>)> = None;
+    'arms: for arm in &a.arms {
+      if let Some((env, rest)) = amatch(&arm.pat, &xs) {
+        for (gi, (g, t)) in arm.branches.iter().enumerate() {
+          let holds = match g {
+            AGuard::Wild => true,
+            AGuard::NameCmpName(i, cm, j) => c(cm, env[i], env[j]),
+            AGuard::NameCmpConst(i, cm, k) => c(cm, env[i], *k),
+            AGuard::AccCmpConst(cm, k) => c(cm, acc, *k),
+          };
+          if holds { chosen = Some((gi, t, env.clone(), rest.clone())); break 'arms; }
+        }
+      }
+    }
+    let (gi, target, env, rest) = match chosen { Some(x) => x, None => return RefRun { visited, taken, end: RefEnd::NoGuardHolds } };
+    taken.push(gi);
+    let eval_acc = |e: &AAcc| -> Option<u64> { match e { AAcc::Acc => Some(acc), AAcc::AddName(n) => acc.checked_add(env[n]), AAcc::AddConst(k) => acc.checked_add(*k), AAcc::NamePlusName(i, j) => env[i].checked_add(env[j]), AAcc::SubName(n) => acc.checked_sub(env[n]) } };
+    match target {
+      ATarget::Done(e) => return match eval_acc(e) { Some(v) => RefRun { visited, taken, end: RefEnd::Value(v) }, None => RefRun { visited, taken, end: RefEnd::Overflow } },
+      ATarget::Scan(v, e) => {
+        let nacc = match eval_acc(e) { Some(v) => v, None => return RefRun { visited, taken, end: RefEnd::Overflow } };
+        let nxs: Vec<u64> = match v { AVec::Rest => rest.clone(), AVec::Cons(n) => std::iter::once(env[n]).chain(rest.iter().copied()).collect(), AVec::Of(ns) => ns.iter().map(|n| env[n]).collect() };
+        xs = nxs; acc = nacc;
+      }
+    }
+  }
+  RefRun { visited, taken, end: RefEnd::TooLong }
+}
+
+fn gen_array2(rng: &mut Rng) -> Array2 {
+  let cmps = [Cmp::Gt, Cmp::Lt, Cmp::Eq, Cmp::Ge, Cmp::Le, Cmp::Ne];
+  let n_arms = 2 + rng.usize(4);
+  let mut arms = vec![];
+  for _ in 0..n_arms {
+    // items: fresh names in order, sometimes a repeated earlier name (equality) or a literal
+    let mut next_name = 0usize;
+    let mut mk_items = |rng: &mut Rng, n: usize, next_name: &mut usize| -> Vec<AItem> {
+      (0..n).map(|_| match rng.below(12) {
+        0 if *next_name > 0 => AItem::Name(rng.usize(*next_name)),
+        1 => AItem::Lit(*rng.pick(&[0u64, 1, 2, 3, 5])),
+        _ => { let i = *next_name; *next_name += 1; AItem::Name(i) }
+      }).collect()
+    };
+    let pat = match rng.below(10) {
+      0 => APat::Empty,
+      1 | 2 => { let n = 1 + rng.usize(3); APat::Exact(mk_items(rng, n, &mut next_name)) }
+      3 | 4 | 5 => { let n = 1 + rng.usize(2); APat::Rest(mk_items(rng, n, &mut next_name)) }
+      _ => { let (p, q) = *rng.pick(&[(1usize, 0usize), (0, 1), (1, 1), (1, 1), (2, 1), (1, 2), (2, 0), (0, 2), (2, 2)]); let pre = mk_items(rng, p, &mut next_name); let suf = mk_items(rng, q, &mut next_name); APat::Spread(pre, suf, rng.chance(1, 2)) }
+    };
+    let bound: Vec<usize> = { let mut b = vec![]; let mut add = |v: &Vec<AItem>| for it in v { if let AItem::Name(n) = it { if !b.contains(n) { b.push(*n); } } }; match &pat { APat::Empty => {}, APat::Exact(v) | APat::Rest(v) => add(v), APat::Spread(p, q, _) => { add(p); add(q); } } b };
+    let has_rest = matches!(pat, APat::Rest(_));
+    let mk_acc = |rng: &mut Rng| -> AAcc {
+      if bound.is_empty() { return if rng.chance(1, 2) { AAcc::Acc } else { AAcc::AddConst(*rng.pick(&[1u64, 7, 100])) }; }
+      match rng.below(10) { 0 | 1 => AAcc::Acc, 2 => AAcc::AddConst(*rng.pick(&[1u64, 7, 100])), 3 if bound.len() >= 2 => AAcc::NamePlusName(bound[0], bound[bound.len() - 1]), 4 => AAcc::SubName(*rng.pick(&bound)), _ => AAcc::AddName(*rng.pick(&bound)) }
+    };
+    let mk_target = |rng: &mut Rng| -> ATarget {
+      let done_bias = match &pat { APat::Empty => 10, APat::Exact(_) => 6, APat::Spread(..) => 4, APat::Rest(_) => 1 };
+      if rng.below(10) < done_bias || (bound.is_empty() && !has_rest) { return ATarget::Done(mk_acc(rng)); }
+      let v = if has_rest { match rng.below(8) { 0 if !bound.is_empty() => AVec::Cons(*rng.pick(&bound)), 1 if !bound.is_empty() => AVec::Of(vec![*rng.pick(&bound)]), _ => AVec::Rest } }
+              else { let n = if bound.len() >= 2 && rng.chance(1, 3) { 2 } else { 1 }; AVec::Of((0..n).map(|_| *rng.pick(&bound)).collect()) };
+      ATarget::Scan(v, mk_acc(rng))
+    };
+    let mk_guard = |rng: &mut Rng| -> AGuard {
+      match rng.below(4) { 0 if bound.len() >= 2 => AGuard::NameCmpName(bound[0], rng.pick(&cmps).clone(), bound[1]), 1 => AGuard::AccCmpConst(rng.pick(&cmps).clone(), *rng.pick(&[0u64, 1, 5, 10])), _ if !bound.is_empty() => AGuard::NameCmpConst(*rng.pick(&bound), rng.pick(&cmps).clone(), *rng.pick(&[0u64, 1, 2, 3, 5])), _ => AGuard::AccCmpConst(rng.pick(&cmps).clone(), *rng.pick(&[0u64, 1, 5, 10])) }
+    };
+    let mut branches = vec![];
+    if rng.chance(1, 3) {
+      let ng = 1 + rng.usize(2);
+      for _ in 0..ng { branches.push((mk_guard(rng), mk_target(rng))); }
+      if rng.chance(3, 4) { branches.push((AGuard::Wild, mk_target(rng))); }
+    } else { branches.push((AGuard::Wild, mk_target(rng))); }
+    arms.push(AArm { pat, branches });
+  }
+  // most machines end with the catch-alls that make them total
+  if rng.chance(4, 5) {
+    if !arms.iter().any(|a| matches!(a.pat, APat::Rest(_)) && a.branches.last().map(|b| b.0 == AGuard::Wild).unwrap_or(false)) {
+      arms.push(AArm { pat: APat::Rest(vec![AItem::Name(0)]), branches: vec![(AGuard::Wild, ATarget::Scan(AVec::Rest, AAcc::AddName(0)))] });
+    }
+    if !arms.iter().any(|a| a.pat == APat::Empty) { arms.push(AArm { pat: APat::Empty, branches: vec![(AGuard::Wild, ATarget::Done(AAcc::AddConst(*rng.pick(&[0u64, 1, 7]))))] }); }
+  }
+  Array2 { start_acc: *rng.pick(&[0u64, 0, 1, 10]), arms }
+}
+
 impl Machine {
+  pub fn is_array(&self) -> bool { self.array.is_some() || self.array2.is_some() }
   pub fn render(&self) -> String {
+    if let Some(a) = &self.array2 { return render_array2(a); }
     if let Some(a) = &self.array { return render_array(a); }
     let k = self.arity;
     let typed: Vec<String> = (0..k).map(|i| format!("{}<u64>", FIELDS[i])).collect();
@@ -158,7 +351,7 @@ impl Machine {
 }
 
 fn render_invocation_for(m: &Machine, inv: &Invocation) -> String {
-  if m.array.is_none() { return render_invocation(inv); }
+  if !m.is_array() { return render_invocation(inv); }
   let vec_of = |v: &Vec<u64>, kind: &str| format!("[{}]", v.iter().map(|x| match kind { "f64" => format!("{}", x), k => format!("{}{}", x, k) }).collect::<Vec<_>>().join(" "));
   match inv {
     Invocation::Ok(v) => format!("#M({})", vec_of(v, "u64")),
@@ -236,6 +429,7 @@ fn reference_array(a: &ArrayMachine, input: &[u64]) -> RefRun {
 }
 
 pub fn reference(m: &Machine, input: &[u64]) -> RefRun {
+  if let Some(a) = &m.array2 { return reference_array2(a, input); }
   if let Some(a) = &m.array { return reference_array(a, input); }
   let mut visited = vec![];
   let mut taken = vec![];
@@ -287,7 +481,11 @@ fn gen_target(rng: &mut Rng, k: usize, n_states: usize, done_bias: u64) -> Targe
 }
 
 pub fn gen_machine(rng: &mut Rng) -> Machine {
-  if rng.chance(1, 5) {
+  if rng.chance(1, 6) {
+    let a = gen_array2(rng);
+    return Machine { array2: Some(a), array: None, arity: 1, arms: vec![], start: vec![], ill: IllFormed::None, names: vec![] };
+  }
+  if rng.chance(1, 6) {
     let cmps = [Cmp::Gt, Cmp::Lt, Cmp::Eq, Cmp::Ge, Cmp::Le, Cmp::Ne];
     let a = ArrayMachine {
       start_acc: *rng.pick(&[0u64, 0, 1, 10]),
@@ -297,7 +495,7 @@ pub fn gen_machine(rng: &mut Rng) -> Machine {
       no_consume: rng.chance(1, 8),
       done_add: *rng.pick(&[0u64, 0, 1, 7]),
     };
-    return Machine { array: Some(a), arity: 1, arms: vec![], start: vec![], ill: IllFormed::None, names: vec![] };
+    return Machine { array2: None, array: Some(a), arity: 1, arms: vec![], start: vec![], ill: IllFormed::None, names: vec![] };
   }
   let k = 1 + rng.usize(3);
   let n_states = 1 + rng.usize(4);
@@ -316,7 +514,7 @@ pub fn gen_machine(rng: &mut Rng) -> Machine {
   }
   let start = (0..k).map(|i| if rng.chance(3, 4) { Term::Field(i) } else { gen_term(rng, k) }).collect();
   let names: Vec<usize> = if rng.chance(1, 2) { vec![0; n_states] } else { (0..n_states).map(|_| rng.usize(NAME_SETS.len())).collect() };
-  let mut m = Machine { array: None, arity: k, arms, start, ill: IllFormed::None, names };
+  let mut m = Machine { array2: None, array: None, arity: k, arms, start, ill: IllFormed::None, names };
   // ill-formed variants
   match rng.below(12) {
     0 => { m.ill = IllFormed::TargetUndeclared; retarget(&mut m, rng, 4); }
@@ -343,11 +541,11 @@ pub fn plan(seed: u64, k: u64) -> Plan {
   let n_inv = 2 + rng.usize(4);
   let mut invocations = vec![];
   for _ in 0..n_inv {
-    let vals: Vec<u64> = if machine.array.is_some() { let n = 1 + rng.usize(5); (0..n).map(|_| *rng.pick(&[0u64, 1, 2, 3, 5, 7])).collect() } else { (0..machine.arity).map(|_| *rng.pick(&[0u64, 0, 1, 2, 3, 4, 5, 7, 10])).collect() };
+    let vals: Vec<u64> = if machine.is_array() { let n = 1 + rng.usize(5); (0..n).map(|_| *rng.pick(&[0u64, 1, 2, 3, 5, 7])).collect() } else { (0..machine.arity).map(|_| *rng.pick(&[0u64, 0, 1, 2, 3, 4, 5, 7, 10])).collect() };
     let budget = *rng.pick(&[1usize, 2, 3, 5, 8, 13, 30, 100, 1000]);
     let inv = match rng.below(12) {
       0 => { let pos = rng.usize(vals.len()); Invocation::WrongKind(vals, pos, rng.pick(&["f64", "u8", "i64", "u32"]).to_string()) }
-      1 => { let mut v = vals.clone(); if machine.array.is_none() { if rng.chance(1, 2) || v.len() == 1 { v.push(1); } else { v.pop(); } } Invocation::WrongCount(v) }
+      1 => { let mut v = vals.clone(); if !machine.is_array() { if rng.chance(1, 2) || v.len() == 1 { v.push(1); } else { v.pop(); } } Invocation::WrongCount(v) }
       _ => Invocation::Ok(vals),
     };
     invocations.push((inv, budget));
@@ -472,8 +670,12 @@ fn execute_on_thread(pl: &Plan, progress: &std::sync::Arc<std::sync::Mutex<(Stri
         } else {
           let rr = reference(m, vals);
           let t = rr.visited.len(); // iterations needed before the output arm's own iteration
-          let want_states: Vec<(String, Vec<u64>)> = rr.visited.iter().map(|(s, p)| (if m.array.is_some() { "Scan".to_string() } else { STATE_NAMES[*s].to_string() }, p.clone())).collect();
+          let want_states: Vec<(String, Vec<u64>)> = rr.visited.iter().map(|(s, p)| (if m.is_array() { "Scan".to_string() } else { STATE_NAMES[*s].to_string() }, p.clone())).collect();
           if m.array.is_some() { bump(&mut counters, "reach:array-pattern-machine", 1); }
+          if let Some(a2) = &m.array2 {
+            bump(&mut counters, "reach:array-pattern-machine-general", 1);
+            if a2.arms.iter().any(|a| matches!(&a.pat, APat::Spread(p, q, _) if !p.is_empty() && !q.is_empty())) { bump(&mut counters, "reach:array-spread-with-prefix-and-suffix", 1); }
+          }
           let limit_err = matches!(&outcome, Outcome::Err { name, .. } if name == "FsmExceededTransitionLimit");
           match &rr.end {
             RefEnd::Value(v) => {
@@ -560,6 +762,22 @@ fn minimise(pl: &Plan, sig: &str) -> Plan {
   while cur.invocations.len() > 1 && i < cur.invocations.len() {
     let mut c = cur.clone(); c.invocations.remove(i);
     if same(&c) { cur = c; } else { i += 1; }
+  }
+  // general array family: fewer arms, fewer branches
+  if cur.machine.array2.is_some() {
+    let mut i = 0;
+    while cur.machine.array2.as_ref().map(|a| a.arms.len() > 1 && i < a.arms.len()).unwrap_or(false) {
+      let mut c = cur.clone(); c.machine.array2.as_mut().unwrap().arms.remove(i);
+      if same(&c) { cur = c; } else { i += 1; }
+    }
+    let n_arms = cur.machine.array2.as_ref().unwrap().arms.len();
+    for ai in 0..n_arms {
+      let mut g = 0;
+      while cur.machine.array2.as_ref().unwrap().arms[ai].branches.len() > 1 && g < cur.machine.array2.as_ref().unwrap().arms[ai].branches.len() {
+        let mut c = cur.clone(); c.machine.array2.as_mut().unwrap().arms[ai].branches.remove(g);
+        if same(&c) { cur = c; } else { g += 1; }
+      }
+    }
   }
   // fewer guards per arm
   for s in 0..cur.machine.arms.len() {
